@@ -31,18 +31,18 @@
 (*               chi-square statistic of the counts against the weights is *)
 (*               below the 1 - 1e-9 quantile (integer arithmetic)          *)
 (***************************************************************************)
-EXTENDS Trace_Par, Rat
+EXTENDS Trace_Par, Rat, Float
 
-VARIABLES b, np, tally
-svars == <<l, g, b, np, tally>>
+VARIABLES b, np, tally, pairs
+svars == <<l, g, b, np, tally, pairs>>
 
 NoTally == [key \in {} |-> <<>>]
 
 SInit == /\ l = 2 /\ Rec[1].e = "game" /\ g = Rec[1]
-         /\ b = [passes |-> 0, inj |-> FALSE] /\ np = 0 /\ tally = NoTally
+         /\ b = [passes |-> 0, inj |-> FALSE] /\ np = 0 /\ tally = NoTally /\ pairs = NoTally
 
-SGame == IsEvent("game") /\ g' = Rec[l] /\ UNCHANGED <<b, np, tally>>
-SBegin == IsEvent("begin") /\ np = b.passes /\ b' = Rec[l] /\ np' = 0 /\ UNCHANGED <<g, tally>>
+SGame == IsEvent("game") /\ g' = Rec[l] /\ UNCHANGED <<b, np, tally, pairs>>
+SBegin == IsEvent("begin") /\ np = b.passes /\ b' = Rec[l] /\ np' = 0 /\ UNCHANGED <<g, tally, pairs>>
 
 \* ------------------------------------------------------------------ weights
 AsRat(x) == <<x[1], x[2]>>
@@ -83,6 +83,31 @@ Bump(t, d) ==
 RECURSIVE BumpAll(_, _, _)
 BumpAll(t, ds, j) == IF j > Len(ds) THEN t ELSE BumpAll(Bump(t, ds[j]), ds, j + 1)
 
+\* ---- independence across infosets: two draws of one pass made at DIFFERENT infosets of one kind from the same
+\* distribution agree with probability sum p_i^2; tallied as <<agreements, pairs>> per distribution
+PairKey(d) == <<Kind(d.site), RatSeq(d.w)>>
+BumpPair(t, d, e) ==
+  LET key == PairKey(d)
+      old == IF key \in DOMAIN t THEN t[key] ELSE <<0, 0>>
+  IN IF old[2] >= Cap THEN t
+     ELSE [k \in (DOMAIN t) \cup {key} |-> IF k = key THEN <<old[1] + (IF d.ix = e.ix THEN 1 ELSE 0), old[2] + 1>> ELSE t[k]]
+PairsOf(ds) == {<<i, j>> \in (1..Len(ds)) \X (1..Len(ds)) :
+                  /\ i < j /\ ds[i].exact /\ ds[j].exact
+                  /\ Kind(ds[i].site) = Kind(ds[j].site) /\ <<ds[i].site, ds[i].info>> # <<ds[j].site, ds[j].info>>
+                  /\ RatSeq(ds[i].w) = RatSeq(ds[j].w)}
+RECURSIVE BumpPairs(_, _, _)
+BumpPairs(t, ds, S) == IF S = {} THEN t
+                       ELSE LET p == CHOOSE x \in S : TRUE IN BumpPairs(BumpPair(t, ds[p[1]], ds[p[2]]), ds, S \ {p})
+\* binomial test at the 1 - 1e-9 level (6.2 standard deviations; the bound is rounded up): never a false alarm
+PairKeyOK(key, c) ==
+  LET w == key[2]
+      q == RSumSeq([j \in 1..Len(w) |-> RMul(w[j], w[j])])
+      n == c[2]
+  IN \/ n < 100 \/ IsPoison(q) \/ q[2] > 100 \/ q = One
+     \/ LET dev == c[1] * q[2] - n * q[1]
+            lim == SqrtCeil(39 * n * q[1] * (q[2] - q[1])) + 1
+        IN dev <= lim /\ -dev <= lim
+
 SPass == /\ IsEvent("pass")
          /\ np < b.passes
          \* "= TRUE": evaluate as a plain predicate (TLC would otherwise split disjunctions into successors)
@@ -90,6 +115,7 @@ SPass == /\ IsEvent("pass")
          /\ (\A j \in 1..Len(Rec[l].draws) : WeightsOK(Rec[l], Rec[l].draws[j]) /\ CounterOK(Rec[l], Rec[l].draws[j])) = TRUE
          /\ np' = np + 1
          /\ tally' = BumpAll(tally, Rec[l].draws, 1)
+         /\ pairs' = BumpPairs(pairs, Rec[l].draws, PairsOf(Rec[l].draws))
          /\ UNCHANGED <<g, b>>
 
 \* ------------------------------------------------------------------ frequencies
@@ -116,8 +142,10 @@ FreqKeyOK(key, counts) ==
 Tested(t) == {key \in DOMAIN t : SumSeq(t[key]) >= 200 /\ LcmSeq(key[2]) <= 16}
 SFreq == /\ IsEvent("freq")
          /\ (\A key \in DOMAIN tally : FreqKeyOK(key, tally[key])) = TRUE
+         /\ (\A key \in DOMAIN pairs : PairKeyOK(key, pairs[key])) = TRUE
+         /\ PrintT(<<"PAIRS", l, ToJson({[kind |-> key[1], w |-> key[2], agree |-> pairs[key][1], n |-> pairs[key][2]] : key \in {k \in DOMAIN pairs : pairs[k][2] >= 100}})>>)
          /\ PrintT(<<"FREQ", l, ToJson([tested |-> {[kind |-> key[1], w |-> key[2], counts |-> tally[key]] : key \in Tested(tally)}])>>)
-         /\ tally' = NoTally
+         /\ tally' = NoTally /\ pairs' = NoTally
          /\ UNCHANGED <<g, b, np>>
 
 SNext == SGame \/ SBegin \/ SPass \/ SFreq
